@@ -96,6 +96,9 @@ inductive Op
   | replaceList (os : List Obj)        -- `p.objects = [..]`
   | replaceDict (kvs : List (Key × Obj))  -- `p.objects = {..}`
   | assign (v : Obj)                   -- `obj.p = v` (Selector value assignment)
+  /-- a `list` mutator that `ListProxy` does not override (`reverse`, `sort`, `del objects[i]`,
+  `objects += [..]`, `objects *= n`), called on `p.objects`: it acts on the throw-away proxy only -/
+  | inherited
   deriving Repr, DecidableEq
 
 structure Out where
@@ -239,6 +242,7 @@ def step (str : Obj → Key) (s : St) : Op → St × Out
     else
       -- `_ensure_value_is_in_objects`: appended to `_objects` only, silently
       if v ∈ s.objs then (s, {}) else ({ s with objs := s.objs ++ [v] }, {})
+  | .inherited => (s, {})     -- `p.objects` is a fresh `ListProxy(self._objects)` copy: nothing is written through
 
 def run (str : Obj → Key) (s : St) (ops : List Op) : St := ops.foldl (fun s op => (step str s op).1) s
 
